@@ -1,5 +1,6 @@
 import Xsm.Proofs.Termination
 import Xsm.Proofs.Fifo
+import Xsm.Proofs.SyncDrain
 /-!
 # C13 — bounded self-feeding chains: `start()` and `send()` return
 
@@ -17,14 +18,18 @@ in `Xsm/Proofs/Termination.lean`.
 **What "returns" means here.** Every model function is a total Lean function, so the question is
 only which recursions are bounded by the code's OWN counters and which by a fuel the model adds.
 
-* SYNC engine (`syncStart`, `syncSend`, `drainLoop`, `transientLoop`, `execActionsF`): every
-  recursion is structural on a counter the Python code itself maintains — `iterations` of
-  `_process_transient_transitions` (bounded by `machine.max_iterations`) and `processed` of
-  `_process_event_queue` (bounded by `budget = machine.max_iterations + len(queue)`, computed once when the
-  drain starts: `drainBudget`), `_action_depth` of `_execute_actions` (`MAX_ACTION_DEPTH`). Nothing is
-  assumed and no model fuel exists: termination of `start()` / `send()` holds by construction. §1 and
-  §2 say what the counters bound, that they do not disturb chains shorter than the bound, and what a
-  cut does.
+* SYNC engine (`syncStart`, `syncSend`, `transientLoop`, `execActionsF`): these recursions are structural
+  on a counter the Python code itself maintains — `iterations` of `_process_transient_transitions` (bounded
+  by `machine.max_iterations`), `_action_depth` of `_execute_actions` (`MAX_ACTION_DEPTH`). The queue drain
+  `drainLoop` (`_process_event_queue`) is different since the second repair of F10: its counter `chained`
+  counts only the dequeues of MARKED events (enqueued while a drain was in flight) and is RESET by a cut, after
+  which the loop goes on with the external events — so the code's loop is not bounded by one counter, and the
+  model recurses on a MODEL fuel `drainFuel m s = (external events queued + 1) * (maxIterations + 2)`. §4
+  proves that this fuel never runs out (`sync_drain_terminates`: the measure `drainPot` — `maxIterations + 2`
+  per pending external event plus the room left below the bound — strictly decreases in every iteration,
+  because a macrostep only ever enqueues MARKED events) and is irrelevant (`sync_fuel_irrelevant`): the real,
+  fuel-less loop terminates after at most `drainFuel` iterations, for every machine and user code. §1 and §2
+  say what the counters bound, that they do not disturb chains shorter than the bound, and what a cut does.
 * ASYNC engine: `transientLoop` and `execActionsF` as above; but the run loop `asyncDrain`
   (`_run_event_loop`) recurses on a MODEL fuel (`asyncFuel m = 10 * maxIterations + 50`) — the code
   has no such bound, and the model reports an exhausted fuel as status "HANG". §3 proves the fuel
@@ -42,9 +47,16 @@ Vocabulary (from `Xsm/Proofs/Termination.lean`):
   since the counter was last reset;
 * `potential L s` — `cntExt s.queue * (L + 4) + chainPot L (cntSelf s.queue) s.raiseDepth`, where
   `chainPot L cs d = if cs = 0 then 0 else 1 + (L + 2 - (d - cs))`;
-* `transientSteps` / `transientCut`, `drainSteps` / `drainCut` — instrumented twins of `transientLoop`
-  and `drainLoop` (same recursion): the number of iterations, and whether the loop was cut (counter
-  exhausted with work pending); `transientPending` — another settling iteration would do something;
+* `transientSteps` / `transientCut` — instrumented twins of `transientLoop` (same recursion): the number of
+  iterations, and whether the loop was cut (counter exhausted with work pending); `transientPending` —
+  another settling iteration would do something;
+* `drainSteps` / `drainTrips` / `drainCut` / `drainHang` (from `Xsm/Proofs/SyncDrain.lean`) — instrumented
+  twins of `drainLoop` (same recursion, arguments: model fuel, the counter `chained`, the state): the number
+  of events processed, the number of cuts, "a cut happened or the model fuel ran out", "the model fuel ran
+  out with events pending on a running interpreter"; `drainLogQ` / `drainLog` (with the model) — the entries /
+  events received; `drainRaised` — the events the macrosteps of the drain enqueued; `syncTrips m c q` — the head
+  `q` is marked and is the `maxIterations + 1`-st marked event dequeued (`c` the counter); `syncPurge` — the
+  cut; `MacroFanout m u K` — no macrostep of `m` under `u` enqueues more than `K` events;
 * `asyncProcess` — what the run loop does with an event it processes (macrostep, settling, error
   logging, end-of-chain test; defined with the model), `asyncBase m s` — the state it is processed in
   (`s`, purged if the breaker fired); `Idle m s` — empty queue and `raiseDepth ≤ maxIterations`;
@@ -65,24 +77,29 @@ Vocabulary (from `Xsm/Proofs/Termination.lean`):
    every digested command leaves it at 0 (`async_run_quiet`), and a run of the loop in which the machine
    sends itself at most `maxIterations` events IN TOTAL is never cut (`short_chain_not_cut_async`; see F70 below). The former
    counterexample `leaked_counter_cuts_short_chain` is replaced by `failed_chains_do_not_leak` (same witness).
-**The last sentence of the property, sync engine** (repaired in the library: F10; the model follows):
-3. the budget of one `_process_event_queue()` is `maxIterations` PLUS the number of events queued when the
-   drain starts (`drainBudget`), so events accepted from outside — a `send_events` burst of any length,
-   events left over by a call that raised, what `start()` queued — never count towards the ceiling and,
-   the queue being FIFO, are all dequeued before anything enqueued during the drain:
-   `external_events_never_discarded_sync` (every event queued at the start is received, in order, unless the
-   machine stops running or a macrostep raises — then the rest stays queued; a cut happens only after all
-   of them plus `maxIterations` more were received) and `short_chain_not_cut_sync` (a drain whose
-   macrosteps enqueue at most `maxIterations` events is never cut; `sync_cut_needs_long_chain`: a cut
-   needs MORE than `maxIterations` of them). The former counterexample `sync_burst_throttled` is replaced by
-   `sync_burst_not_throttled` (same witness). The cut still clears the whole queue
-   (`drainLoop_exhausted_clears_queue`) — which then holds only events enqueued during the drain.
+**The last sentence of the property, sync engine** (repaired in the library: F10, twice; the model follows):
+3. the bound of one `_process_event_queue()` counts only the dequeues of MARKED events — those `send()` /
+   `send_events()` enqueued while a drain was in flight (`_is_processing`: the `raise` built-in, `done.state.*`,
+   a send made by an action or a timer thread; also during `start()`) — and the cut discards the marked
+   events only and goes on, so an event accepted from outside is neither counted nor discarded:
+   `external_events_never_discarded_sync` (the external events received plus those still queued are the
+   external events queued at the start, in order — whatever marked entries are queued between them, however
+   often the bound cuts — unless the machine stops running) and `short_chain_not_cut_sync` (a drain in which
+   at most `maxIterations` marked events come up — queued at its start or enqueued by its macrosteps — is
+   never cut; `sync_cut_needs_long_chain`: a cut needs MORE than `maxIterations` of them). The former
+   counterexample `sync_burst_throttled` is replaced by `sync_burst_not_throttled` (same witness). The cut
+   (`cut_purges_marked_only`) removes the marked entries and nothing else.
+   The FIRST repair (budget `maxIterations` + queue length at the start of the drain) exempted the events LEFT
+   QUEUED by a drain that raised — mostly self-raised ones — from the bound; with a fan-out machine the queue
+   then grew geometrically from `send` to `send` and `send()` effectively hung. `leftovers_stay_bounded`: the
+   marks outlive an aborted drain, the number of events one drain processes does not depend on the number of
+   marked leftovers (`sync_drain_work_bounded`), and a cut purges them all.
 **What the positive theorems do NOT say (open finding F70).** `short_chain_not_cut_async` and
 `short_chain_not_cut_sync` bound the TOTAL number of events the machine sends itself during one BUSY PERIOD
 (one run of the loop / one drain: `asyncSelfSends`, `drainRaised` — over ALL events processed in it), not the
 length of each causal chain. Both engines count that way: the async counter `_raise_depth` is reset only when
-nothing self-raised is pending, the sync budget is `maxIterations` + the queue length at the start of the drain
-and every dequeue counts. Read per CAUSAL CHAIN (the events raised, transitively, while ONE external event is
+nothing self-raised is pending, the sync counter `chained` counts every marked dequeue of a drain and is reset
+only by a cut. Read per CAUSAL CHAIN (the events raised, transitively, while ONE external event is
 handled — the reading the monitor `c14.c04_monitor`, rule `short-chains-cut-by-burst`, checks) the clause
 "chains shorter than the bound run to their natural end" FAILS on both engines: a burst of more than
 `maxIterations` external events each of which raises one event — independent chains of length 1 — is cut.
@@ -148,67 +165,72 @@ example : (transientSteps (hooksFlagged u0 settleM) .sync settleM u0 4 running,
 example : (syncStart settleM u0 {}).cfg = [[], ["b"]] := by decide
 
 /-- *Clause "an action raising its own trigger … cut after the machine's maxIterations bound" (sync).*
-    `drainLoop … n` processes at most `n` queued events (`drainSteps`: same recursion, counting);
-    `syncSend` / `syncStart` call it with `n = drainBudget m s = m.maxIterations + s.queue.length`, `s` the
-    state when the drain starts (the event just sent already appended). -/
-theorem drainLoop_bound (m : Machine) (u : UEnv) (n : Nat) (s : St) : drainSteps m u n s ≤ n :=
-  drainSteps_le m u n s
+    One `_process_event_queue()` started with the counter at 0 processes (`drainSteps`: dequeues and hands to
+    `_process_event`) at most `maxIterations + 1` events per EXTERNAL event queued when it starts, plus
+    `maxIterations` — whatever the model fuel, and however many marked entries are queued: between two
+    external events at most `maxIterations` marked events are processed before the cut. -/
+theorem drainLoop_bound (m : Machine) (u : UEnv) (fuel : Nat) (s : St) :
+    drainSteps m u fuel 0 s ≤ cntExt s.queue * (m.maxIterations + 1) + m.maxIterations :=
+  Term.drainSteps_le m u fuel s
 
-/-- one `send` on the sync engine processes at most `maxIterations` events MORE than were queued when its
-    drain started (the event itself included among the latter), and it IS one such drain -/
+/-- one `send` on the sync engine IS one such drain (counter 0, the event appended unmarked), and processes at
+    most `(n + 1) * (maxIterations + 1) + maxIterations` events, `n` the external events already queued -/
 theorem syncSend_bound (m : Machine) (u : UEnv) (e : Ev) (s : St) (hr : s.status = "running") :
     syncSend m u e s =
-      drainLoop m u (m.maxIterations + (s.queue.length + 1)) { s with queue := s.queue ++ [⟨e, false⟩] } ∧
-    drainSteps m u (m.maxIterations + (s.queue.length + 1)) { s with queue := s.queue ++ [⟨e, false⟩] }
-      ≤ m.maxIterations + (s.queue.length + 1) := by
-  refine ⟨?_, drainSteps_le m u _ _⟩
-  unfold syncSend sndUnflagged drainFlagged drainBudget
-  rw [if_pos hr]
-  simp
+      drainLoop m u (drainFuel m { s with queue := s.queue ++ [⟨e, false⟩] }) 0 { s with queue := s.queue ++ [⟨e, false⟩] } ∧
+    drainSteps m u (drainFuel m { s with queue := s.queue ++ [⟨e, false⟩] }) 0 { s with queue := s.queue ++ [⟨e, false⟩] }
+      ≤ (cntExt s.queue + 1) * (m.maxIterations + 1) + m.maxIterations := by
+  refine ⟨?_, ?_⟩
+  · unfold syncSend sndUnflagged drainFlagged
+    rw [if_pos hr]
+  · have h := Term.drainSteps_le m u (drainFuel m { s with queue := s.queue ++ [⟨e, false⟩] })
+      { s with queue := s.queue ++ [⟨e, false⟩] }
+    have hc : cntExt ({ s with queue := s.queue ++ [⟨e, false⟩] } : St).queue = cntExt s.queue + 1 := by
+      show cntExt (s.queue ++ [⟨e, false⟩]) = _
+      rw [cntExt_append]; rfl
+    rw [hc] at h; exact h
 
-/-- *Fuel monotonicity for the queue drain:* if with budget `k` the drain is not cut (it ended with an
-    empty queue, a machine that is not running, or an error) every budget `≥ k` gives the same result. -/
-theorem drainLoop_fuel_mono (m : Machine) (u : UEnv) (k : Nat) (s : St) (hk : drainCut m u k s = false)
-    (n : Nat) (hn : k ≤ n) : drainLoop m u n s = drainLoop m u k s :=
-  Term.drainLoop_fuel_mono m u k s hk n hn
+/-- *What the cut does (sync).* When the head of the queue is a marked event that trips the bound
+    (`syncTrips`: the `maxIterations + 1`-st marked event dequeued since the counter was last 0), the loop
+    goes on — with the counter at 0 — from `syncPurge s`: the MARKED entries (the head included) are
+    discarded, every external entry is kept, in order (`extOf`), nothing marked is left. -/
+theorem cut_purges_marked_only (m : Machine) (u : UEnv) (fuel c : Nat) (s : St) (q : QEv) (rest : List QEv)
+    (hq : s.queue = q :: rest) (hrun : s.status = "running") (ht : syncTrips m c q = true) :
+    drainLoop m u (fuel + 1) c s = drainLoop m u fuel 0 (syncPurge s) ∧
+    (syncPurge s).queue = extOf s.queue ∧ (∀ x ∈ (syncPurge s).queue, x.self = false) :=
+  ⟨drainLoop_trip m u fuel c s q rest hq hrun ht, rfl, Term.syncPurge_all_ext s⟩
 
-theorem drainLoop_short_chain_unaffected (m : Machine) (u : UEnv) (k : Nat) (s : St)
-    (hk : drainCut m u k s = false) (n n' : Nat) (hn : k ≤ n) (hn' : k ≤ n') :
-    drainLoop m u n s = drainLoop m u n' s := by
-  rw [drainLoop_fuel_mono m u k s hk n hn, drainLoop_fuel_mono m u k s hk n' hn']
-
-theorem drainLoop_not_cut_of_steps_lt (m : Machine) (u : UEnv) (n : Nat) (s : St)
-    (hlt : drainSteps m u n s < n) : drainCut m u n s = false := drainCut_false_of_steps_lt m u n s hlt
-
-/-- *What the cut does (sync).* With the budget exhausted the queue is emptied: whatever is pending
-    is discarded (`self._event_queue.clear()`). With the budget the code computes (`drainBudget`) nothing
-    that was queued when the drain started can be pending then: see `external_events_never_discarded_sync`
-    (§4) — what is discarded was enqueued while draining. -/
-theorem drainLoop_exhausted_clears_queue (m : Machine) (u : UEnv) (s : St) : (drainLoop m u 0 s).queue = [] := by
-  rw [Term.drainLoop_zero]
+/-- the bound trips exactly on a MARKED head that would be the `maxIterations + 1`-st -/
+theorem cut_condition (m : Machine) (c : Nat) (q : QEv) :
+    syncTrips m c q = true ↔ (q.self = true ∧ m.maxIterations < c + 1) := Term.syncTrips_eq_true m c q
 
 /-- *"leaving a legal configuration and an interpreter that still answers the next event" (sync).* The
     cut changes nothing but the queue: configuration, status, error flag, context, history, trace are
     as they were — in particular no error is raised to the caller and the status stays "running". -/
-theorem cut_keeps_running (m : Machine) (u : UEnv) (s : St) :
-    drainLoop m u 0 s = { s with queue := [] } ∧
-    (drainLoop m u 0 s).cfg = s.cfg ∧ (drainLoop m u 0 s).status = s.status ∧
-      (drainLoop m u 0 s).err = s.err ∧ (drainLoop m u 0 s).ctx = s.ctx := by
-  rw [Term.drainLoop_zero]; exact ⟨rfl, rfl, rfl, rfl, rfl⟩
+theorem cut_keeps_running (s : St) :
+    syncPurge s = { s with queue := s.queue.filter (fun q => !q.self) } ∧
+    (syncPurge s).cfg = s.cfg ∧ (syncPurge s).status = s.status ∧
+      (syncPurge s).err = s.err ∧ (syncPurge s).ctx = s.ctx ∧ (syncPurge s).hist = s.hist ∧
+      (syncPurge s).trace = s.trace := ⟨rfl, rfl, rfl, rfl, rfl, rfl, rfl⟩
 
-/-- `fanM` (`E` raises `E` twice, bound 3), sync: `send(E)` (budget 3 + 1: the `E` sent does not count)
-    processes exactly 4 events and is cut; it returns running, with an empty queue, no error; the next event
-    is answered -/
-example : (drainBudget fanM { running with queue := [⟨.user "E", false⟩] },
-    drainSteps fanM u0 4 { running with queue := [⟨.user "E", false⟩] },
-    drainCut fanM u0 4 { running with queue := [⟨.user "E", false⟩] }) = (4, 4, true) := by decide
+/-- `fanM` (`E` raises `E` twice, bound 3), sync: `send(E)` — the `E` sent is external and does not count —
+    processes exactly 4 events (the external `E` and three marked ones) and is cut by the fourth marked `E`; it
+    returns running, with an empty queue, no error; the next event is answered -/
+example : (drainSteps fanM u0 (drainFuel fanM { running with queue := [⟨.user "E", false⟩] }) 0
+      { running with queue := [⟨.user "E", false⟩] },
+    drainTrips fanM u0 (drainFuel fanM { running with queue := [⟨.user "E", false⟩] }) 0
+      { running with queue := [⟨.user "E", false⟩] },
+    drainCut fanM u0 (drainFuel fanM { running with queue := [⟨.user "E", false⟩] }) 0
+      { running with queue := [⟨.user "E", false⟩] }) = (4, 1, true) := by decide
 example : let s := syncSend fanM u0 (.user "E") running
     (s.status, s.cfg, evTypes s, s.err.isSome, count "sawE@E" s) = ("running", [[], ["a"]], [], false, 4) := by
   decide
 example : count "sawX@X" (syncSend fanM u0 (.user "X") (syncSend fanM u0 (.user "E") running)) = 1 := by decide
 /-- `shortM` (`E` raises `R` once): two events, not cut; the chain ran to its natural end -/
-example : (drainSteps shortM u0 4 { running with queue := [⟨.user "E", false⟩] },
-    drainCut shortM u0 4 { running with queue := [⟨.user "E", false⟩] }) = (2, false) := by decide
+example : (drainSteps shortM u0 (drainFuel shortM { running with queue := [⟨.user "E", false⟩] }) 0
+      { running with queue := [⟨.user "E", false⟩] },
+    drainCut shortM u0 (drainFuel shortM { running with queue := [⟨.user "E", false⟩] }) 0
+      { running with queue := [⟨.user "E", false⟩] }) = (2, false) := by decide
 example : count "sawR@R" (syncSend shortM u0 (.user "E") running) = 1 := by decide
 
 /-! ## 2. nested action expansion (`choose` …) is bounded by the code's depth counter -/
@@ -248,7 +270,9 @@ theorem hooksAsync_append_only (u : UEnv) (m : Machine) : HooksGrow true (hooksA
 /-- … one macrostep — selection, every selected transition with its exits, actions, entries, done
     checks, rollback on failure — only appends self-flagged entries to the queue, counts each of them
     in `raiseDepth`, and leaves the status alone or sets it to "done"; so does settling. (For any
-    hooks with `HooksGrow b h`; `hooksFlagged` and `hooksAsyncStart` satisfy it with `b = false`.) -/
+    hooks with `HooksGrow b h`; `hooksAsyncStart` satisfies it with `b = false`. The sync hooks `hooksFlagged`
+    append MARKED entries without counting them in `raiseDepth` — the sync engine has no such counter:
+    `Term.syncMacro_marked`.) -/
 theorem processEvent_append_only {b : Bool} (h : Hooks) (hg : HooksGrow b h) (fl : Flavor) (m : Machine)
     (u : UEnv) (ev : Ev) (s : St) : Grow b s (processEvent h fl m u ev s) := processEvent_grow h hg fl m u ev s
 
@@ -380,11 +404,13 @@ example : let s : St := { running with queue := [⟨.user "E", true⟩, ⟨.user
      potential 3 (asyncStep fanM u0 ⟨.user "E", true⟩ { s with queue := [⟨.user "E", true⟩] })) = (true, 6, 5) := by
   decide
 /-- `reDoneM` (*"an onDone that re-completes its own state"*), bound 3: `start()` returns on both
-    engines, running, in a legal configuration; the `onDone` transition ran 4 times on both: one done event
-    queued by `start()` itself, uncounted (sync: the drain budget is 3 + 1; async: `start()` runs outside the
-    run loop), then 3 more before the cut (sync: the drain budget; async: the breaker) -/
+    engines, running, in a legal configuration; the `onDone` transition ran 3 times on the sync engine (the done
+    event queued by `start()` itself is MARKED — `_is_processing` is set during the initial entry — so it is
+    the first of the three marked events the drain processes before the cut) and 4 times on the async one (one
+    done event queued by `start()` itself, uncounted: `start()` runs outside the run loop; then 3 more before
+    the breaker fires) -/
 example : let s := syncStart reDoneM u0 {}
-    (s.status, s.cfg, evTypes s, count "again@done.state.m.p" s) = ("running", [[], ["p"], ["p", "f"]], [], 4) := by
+    (s.status, s.cfg, evTypes s, count "again@done.state.m.p" s) = ("running", [[], ["p"], ["p", "f"]], [], 3) := by
   decide +kernel
 example : let s := asyncStart reDoneM u0 {}
     (s.status, s.cfg, evTypes s, s.raiseDepth, count "again@done.state.m.p" s) =
@@ -581,118 +607,246 @@ theorem failed_chains_do_not_leak :
     asyncTrips errChainM u0 (asyncFuel errChainM) { s3 with err := none, queue := [⟨.user "E", false⟩] } = 0 := by
   decide
 
-/-! ### the sync engine: events queued when a drain starts are never throttled or discarded (F10, repaired) -/
+/-! ### the sync engine: termination, external events, short chains, leftovers (F10, repaired twice) -/
 
-/-- the budget of one `_process_event_queue()`: `limit + len(self._event_queue)`, computed when the drain
-    starts; `syncSend` / `send_events` / `syncStart` all drain through `drainFlagged` -/
-theorem sync_drain_budget (m : Machine) (u : UEnv) (s : St) :
-    drainFlagged m u s = drainLoop m u (m.maxIterations + s.queue.length) s := rfl
+/-- `_process_event_queue()`: the loop with `chained = 0`; `syncSend` / `send_events` / `syncStart` all drain
+    through `drainFlagged`. The first argument is the MODEL's fuel (`drainFuel`). -/
+theorem sync_drain_is (m : Machine) (u : UEnv) (s : St) :
+    drainFlagged m u s = drainLoop m u ((cntExt s.queue + 1) * (m.maxIterations + 2)) 0 s := rfl
 
-/-- **events queued when a sync drain starts are never discarded by the bound** (the sync counterpart of
+/-- the measure of the sync drain strictly decreases in every iteration: processing the head (marked and
+    within the bound, or external) … -/
+theorem sync_measure_decreases (m : Machine) (u : UEnv) (c : Nat) (s : St) (q : QEv) (rest : List QEv)
+    (hq : s.queue = q :: rest) (hc : c ≤ m.maxIterations) (ht : syncTrips m c q = false) :
+    drainPot m.maxIterations (chainedNext c q) (syncMacro m u q.ev { s with queue := rest }).queue <
+      drainPot m.maxIterations c s.queue ∧ chainedNext c q ≤ m.maxIterations :=
+  ⟨Term.drainPot_step m u c s q rest hq hc ht, Term.chainedNext_le m c q hc ht⟩
+
+/-- … and a cut -/
+theorem sync_measure_decreases_cut (m : Machine) (c : Nat) (s : St) (q : QEv) (rest : List QEv)
+    (hq : s.queue = q :: rest) (hc : c ≤ m.maxIterations) (ht : syncTrips m c q = true) :
+    drainPot m.maxIterations 0 (syncPurge s).queue < drainPot m.maxIterations c s.queue :=
+  Term.drainPot_trip m c s q rest hq hc ht
+
+/-- **the sync drain terminates — for every machine, user code and state.** With any fuel `F ≥ drainFuel m s`
+    (in general: at least the measure `drainPot`) the model's fuel never runs out with events pending on a
+    running interpreter (`drainHang`): the `while self._event_queue:` loop of the code, which has no such
+    bound, ends after at most `(external events queued + 1) * (maxIterations + 2)` iterations. -/
+theorem sync_drain_terminates (m : Machine) (u : UEnv) (s : St) (F : Nat) (hF : drainFuel m s ≤ F) :
+    drainHang m u F 0 s = false := Term.drain_no_hang m u s F hF
+
+theorem sync_drain_terminates_pot (m : Machine) (u : UEnv) (F c : Nat) (s : St) (hc : c ≤ m.maxIterations)
+    (hF : drainPot m.maxIterations c s.queue ≤ F) : drainHang m u F c s = false :=
+  Term.drain_no_hang_pot m u F c s hc hF
+
+/-- **… and the fuel is irrelevant**: the drain the model runs is the drain with ANY larger fuel — the real,
+    fuel-less loop — in its result and in the events it receives. -/
+theorem sync_fuel_irrelevant (m : Machine) (u : UEnv) (s : St) (F : Nat) (hF : drainFuel m s ≤ F) :
+    drainLoop m u F 0 s = drainFlagged m u s ∧ drainLogQ m u F 0 s = drainLogQ m u (drainFuel m s) 0 s :=
+  Term.sync_fuel_irrelevant m u s F hF
+
+/-- `send` returns (sync): `syncSend` is the fuel-less drain of the queue with the event appended -/
+theorem syncSend_terminates (m : Machine) (u : UEnv) (e : Ev) (s : St) (hr : s.status = "running") (F : Nat)
+    (hF : drainFuel m { s with queue := s.queue ++ [⟨e, false⟩] } ≤ F) :
+    syncSend m u e s = drainLoop m u F 0 { s with queue := s.queue ++ [⟨e, false⟩] } ∧
+    drainHang m u F 0 { s with queue := s.queue ++ [⟨e, false⟩] } = false := by
+  refine ⟨?_, Term.drain_no_hang m u _ F hF⟩
+  rw [(Term.sync_fuel_irrelevant m u _ F hF).1]
+  unfold syncSend sndUnflagged
+  rw [if_pos hr]
+
+/-- with the model's fuel, "cut" (`drainCut`) means exactly: the bound tripped at least once -/
+theorem sync_cut_iff_trips (m : Machine) (u : UEnv) (s : St) :
+    drainCut m u (drainFuel m s) 0 s = true ↔ 0 < drainTrips m u (drainFuel m s) 0 s :=
+  Term.drainCut_iff_trips m u _ 0 s (Term.drain_no_hang m u s _ (Nat.le_refl _))
+
+/-- **external events are never discarded by the sync bound** (the sync counterpart of
     `external_events_never_discarded_async`; the former counterexample `sync_burst_throttled` no longer holds).
-    For every machine, user code and state, the drain the code runs (`drainFlagged`: budget `maxIterations`
-    + queue length) receives (`drainLog`: dequeues and hands to `_process_event`) first of all the events
-    that were queued at its start, in queue order, none skipped, none twice; ALL of them — and nothing is
-    left queued — when it returns with the interpreter "running" and without raising; if it raises (the
-    sync engine aborts the drain on a failing macrostep) the ones not yet received are still queued, in
-    order, at the head; and the breaker (`drainCut`: budget exhausted with events pending) fires only after
-    all of them and `maxIterations` further events have been received. The only other way a queued event is
-    not received: the machine completed or was stopped (status gate, C10). -/
+    For every machine, user code and state — in particular with MARKED leftovers of a drain that raised queued
+    in front of, or between, the external events: the external events the drain received (`drainLogQ`:
+    dequeued AND handed to `_process_event`), followed by those still queued when it returns, are an initial
+    segment of the external events queued at its start — none skipped, none twice, order kept; ALL of them when
+    the interpreter is still "running" then (the only way an external event is lost: the machine completed or
+    was stopped — status gate, C10); and a drain that returns "running" without raising has received every one
+    of them and left nothing queued. -/
 theorem external_events_never_discarded_sync (m : Machine) (u : UEnv) (s : St) :
-    (drainLog m u (drainBudget m s) s).take s.queue.length =
-      (s.queue.map (·.ev)).take (drainLog m u (drainBudget m s) s).length ∧
+    (extOf (drainLogQ m u (drainFuel m s) 0 s) ++ extOf (drainFlagged m u s).queue <+: extOf s.queue) ∧
+    ((drainFlagged m u s).status = "running" →
+      extOf (drainLogQ m u (drainFuel m s) 0 s) ++ extOf (drainFlagged m u s).queue = extOf s.queue) ∧
     ((drainFlagged m u s).err = none → (drainFlagged m u s).status = "running" →
-      (drainLog m u (drainBudget m s) s).take s.queue.length = s.queue.map (·.ev) ∧ (drainFlagged m u s).queue = []) ∧
-    (s.status = "running" → (drainFlagged m u s).err ≠ none →
-      s.queue.drop (drainLog m u (drainBudget m s) s).length <+: (drainFlagged m u s).queue) ∧
-    (drainCut m u (drainBudget m s) s = true →
-      (drainLog m u (drainBudget m s) s).length = m.maxIterations + s.queue.length ∧
-      (drainLog m u (drainBudget m s) s).take s.queue.length = s.queue.map (·.ev)) := by
-  have hB : s.queue.length ≤ drainBudget m s := by unfold drainBudget; omega
-  obtain ⟨h1, h2, h3⟩ := drain_initial m u s.queue (drainBudget m s) s [] (by simp) hB
-  have hall : s.queue.length ≤ (drainLog m u (drainBudget m s) s).length →
-      (drainLog m u (drainBudget m s) s).take s.queue.length = s.queue.map (·.ev) := by
-    intro h
-    rw [h1, List.take_of_length_le]
-    rw [List.length_map]; exact h
-  refine ⟨h1, fun he hr => ⟨hall (h2 he hr), drainLoop_queue_nil m u _ _ he⟩, h3, fun hc => ?_⟩
-  have hl := drainCut_steps m u _ s hc
-  exact ⟨hl, hall (by rw [hl]; exact hB)⟩
+      extOf (drainLogQ m u (drainFuel m s) 0 s) = extOf s.queue ∧ (drainFlagged m u s).queue = []) := by
+  have h1 := Term.drain_external_prefix m u (drainFuel m s) 0 s
+  have h2 := Term.drain_external_split m u (drainFuel m s) 0 s (Term.drain_no_hang m u s _ (Nat.le_refl _))
+  refine ⟨h1, h2, fun he hr => ?_⟩
+  have hnil : (drainLoop m u (drainFuel m s) 0 s).queue = [] := drainLoop_queue_nil m u _ _ _ he
+  have := h2 hr
+  rw [hnil] at this
+  exact ⟨by simpa [extOf] using this, hnil⟩
 
-/-- **a drain in which at most `maxIterations` events are enqueued while draining is never cut** (the sync
-    counterpart of `short_chain_not_cut_async`, and of the monitor `oracles.c13_short_chain_not_cut`).
+/-- … for every fuel and counter: a prefix, always -/
+theorem external_events_prefix_sync (m : Machine) (u : UEnv) (fuel c : Nat) (s : St) :
+    extOf (drainLogQ m u fuel c s) ++ extOf (drainLoop m u fuel c s).queue <+: extOf s.queue :=
+  Term.drain_external_prefix m u fuel c s
+
+/-- **a drain in which at most `maxIterations` marked events come up is never cut** (the sync counterpart of
+    `short_chain_not_cut_async`, and of the monitor `oracles.c13_short_chain_not_cut`). The marked entries
+    queued when the drain starts (`cntSelf`: leftovers of a drain that raised, what `start()` queued) plus
     `drainRaised`: the events the macrosteps of this drain append to the queue — every `raise`, every
-    `done.state.*`, every `send` to itself, over all events processed. However many events were queued when
-    the drain started. -/
+    `done.state.*`, every `send` to itself, over all events processed. However many EXTERNAL events are queued. -/
 theorem short_chain_not_cut_sync (m : Machine) (u : UEnv) (s : St)
-    (h : (drainRaised m u (drainBudget m s) s).length ≤ m.maxIterations) :
-    drainCut m u (drainBudget m s) s = false :=
-  drainCut_false_of_raised m u _ s (by have : drainBudget m s = m.maxIterations + s.queue.length := rfl; omega)
+    (h : cntSelf s.queue + (drainRaised m u (drainFuel m s) 0 s).length ≤ m.maxIterations) :
+    drainTrips m u (drainFuel m s) 0 s = 0 ∧ drainCut m u (drainFuel m s) 0 s = false := by
+  have h0 := drainTrips_zero_of_raised m u (drainFuel m s) 0 s (by omega)
+  refine ⟨h0, ?_⟩
+  cases hc : drainCut m u (drainFuel m s) 0 s with
+  | false => rfl
+  | true => have := (sync_cut_iff_trips m u s).1 hc; omega
 
-/-- … the exact threshold: the breaker fires only in a drain whose macrosteps enqueued MORE than
-    `maxIterations` events -/
+/-- … the exact threshold: the bound trips only in a drain in which MORE than `maxIterations` marked events
+    come up -/
 theorem sync_cut_needs_long_chain (m : Machine) (u : UEnv) (s : St)
-    (hc : drainCut m u (drainBudget m s) s = true) :
-    m.maxIterations < (drainRaised m u (drainBudget m s) s).length := by
-  by_cases h : m.maxIterations < (drainRaised m u (drainBudget m s) s).length
+    (hc : drainCut m u (drainFuel m s) 0 s = true) :
+    m.maxIterations < cntSelf s.queue + (drainRaised m u (drainFuel m s) 0 s).length := by
+  by_cases h : m.maxIterations < cntSelf s.queue + (drainRaised m u (drainFuel m s) 0 s).length
   · exact h
-  · rw [short_chain_not_cut_sync m u s (by omega)] at hc; exact absurd hc (by simp)
+  · rw [(short_chain_not_cut_sync m u s (by omega)).2] at hc; exact absurd hc (by simp)
 
-/-- … for one `send` (the event appended, then the drain), and a not-cut drain is unaffected by the bound:
-    any larger budget gives the same result -/
-theorem short_chain_not_cut_send_sync (m : Machine) (u : UEnv) (e : Ev) (s : St)
-    (h : (drainRaised m u (drainBudget m { s with queue := s.queue ++ [⟨e, false⟩] })
+/-- … for one `send` to an interpreter with nothing marked queued (the event appended, then the drain) -/
+theorem short_chain_not_cut_send_sync (m : Machine) (u : UEnv) (e : Ev) (s : St) (hs : cntSelf s.queue = 0)
+    (h : (drainRaised m u (drainFuel m { s with queue := s.queue ++ [⟨e, false⟩] }) 0
       { s with queue := s.queue ++ [⟨e, false⟩] }).length ≤ m.maxIterations) :
-    drainCut m u (drainBudget m { s with queue := s.queue ++ [⟨e, false⟩] })
-      { s with queue := s.queue ++ [⟨e, false⟩] } = false ∧
-    ∀ n, drainBudget m { s with queue := s.queue ++ [⟨e, false⟩] } ≤ n →
-      drainLoop m u n { s with queue := s.queue ++ [⟨e, false⟩] } =
-        drainFlagged m u { s with queue := s.queue ++ [⟨e, false⟩] } := by
-  have hc := short_chain_not_cut_sync m u { s with queue := s.queue ++ [⟨e, false⟩] } h
-  exact ⟨hc, fun n hn => Term.drainLoop_fuel_mono m u _ _ hc n hn⟩
+    drainCut m u (drainFuel m { s with queue := s.queue ++ [⟨e, false⟩] }) 0
+      { s with queue := s.queue ++ [⟨e, false⟩] } = false := by
+  apply (short_chain_not_cut_sync m u { s with queue := s.queue ++ [⟨e, false⟩] } ?_).2
+  have : cntSelf ({ s with queue := s.queue ++ [⟨e, false⟩] } : St).queue = 0 := by
+    show cntSelf (s.queue ++ [⟨e, false⟩]) = 0
+    rw [cntSelf_append, hs]; rfl
+  omega
+
+/-- **the work of one drain does not depend on the marked leftovers** (what made the first repair of F10 hang:
+    there, every event left queued by a drain that raised was exempt from the bound, so a fan-out machine
+    processed ALL of them in the next drain, each enqueuing several more). One `_process_event_queue()`
+    processes at most `maxIterations + 1` events per external event queued plus `maxIterations`, and with
+    `MacroFanout m u K` enqueues at most `K` times as many. -/
+theorem sync_drain_work_bounded (m : Machine) (u : UEnv) (K : Nat) (hK : Term.MacroFanout m u K) (s : St) :
+    drainSteps m u (drainFuel m s) 0 s ≤ cntExt s.queue * (m.maxIterations + 1) + m.maxIterations ∧
+    (drainFlagged m u s).queue.length ≤ s.queue.length + K * drainSteps m u (drainFuel m s) 0 s :=
+  ⟨Term.drainSteps_le m u _ s, Term.drain_queue_length m u K hK _ 0 s⟩
+
+/-- **the queue left behind by a drain stays bounded** (the formal counterpart of the regression of the first
+    repair of F10). When `_process_event_queue()` returns — in particular with an error, which keeps what is
+    queued, marks included — the MARKED entries still queued are at most the marked entries queued when it
+    started, if the bound never tripped, and none of those otherwise (a cut purges them ALL), plus `K` per
+    event this drain processed, `K` any bound on what one macrostep enqueues; and the drain processed at most
+    `cntExt s.queue * (maxIterations + 1) + maxIterations` events. So what a later drain finds is bounded by
+    what the earlier ones PROCESSED (not by what they found): the queue cannot grow geometrically from `send`
+    to `send`; and as soon as more than `maxIterations` marked leftovers are dequeued in one drain — at the
+    `maxIterations + 1`-st — they are all gone. -/
+theorem leftovers_stay_bounded (m : Machine) (u : UEnv) (K : Nat) (hK : Term.MacroFanout m u K) (s : St) :
+    cntSelf (drainFlagged m u s).queue ≤
+      (if drainTrips m u (drainFuel m s) 0 s = 0 then cntSelf s.queue else 0) +
+        K * drainSteps m u (drainFuel m s) 0 s ∧
+    cntSelf (drainFlagged m u s).queue ≤
+      (if drainTrips m u (drainFuel m s) 0 s = 0 then cntSelf s.queue else 0) +
+        K * (cntExt s.queue * (m.maxIterations + 1) + m.maxIterations) ∧
+    cntExt (drainFlagged m u s).queue ≤ cntExt s.queue := by
+  have h1 := Term.drain_leftovers m u K hK (drainFuel m s) 0 s
+  have h2 := Term.drainSteps_le m u (drainFuel m s) s
+  refine ⟨h1, Nat.le_trans h1 (Nat.add_le_add_left (Nat.mul_le_mul_left K h2) _), ?_⟩
+  have h3 := Term.drain_external_prefix m u (drainFuel m s) 0 s
+  have h4 := h3.length_le
+  rw [List.length_append, Term.extOf_length, Term.extOf_length, Term.extOf_length] at h4
+  show cntExt (drainLoop m u (drainFuel m s) 0 s).queue ≤ _
+  omega
+
+/-- … a drain that starts with MORE than `maxIterations` marked leftovers at the head of its queue and whose
+    first `maxIterations` macrosteps do not fail purges them at the `maxIterations + 1`-st: stated through the
+    counter — a marked head is processed only while fewer than `maxIterations` marked events were dequeued
+    since the last cut -/
+theorem marked_head_processed_iff (m : Machine) (c : Nat) (q : QEv) (hq : q.self = true) :
+    syncTrips m c q = false ↔ c + 1 ≤ m.maxIterations := by
+  rw [Term.syncTrips_eq_false]; simp [hq]
+
+/-- `fanErrM` (`E` raises `R` twice and then FAILS, `R` raises `R` twice; bound 3), `send(E)` four times (each
+    from the state the previous one left, error flag cleared — the exception went to the caller): every `send`
+    raises; the queue it leaves behind has length 2, 6, 2, 6 — bounded: the second send finds `R R E`, processes
+    `R R` (marked, 2 ≤ 3) and `E`, leaves 6 marked `R`; the third finds `R⁶ E`, processes three `R`, the fourth
+    trips the bound: all marked entries are purged, `E` is processed and leaves 2. (Under the first repair
+    every leftover was exempt from the bound: 2, 6, 14, 30, … — each drain processed all of them.) `K = 2` is a
+    fan-out bound for the run, and `leftovers_stay_bounded` gives 2, 2 + 2·3, 0 + 2·4, 2 + 2·3. -/
+theorem leftovers_example :
+    let s1 := cmd .sync fanErrM u0 running (.user "E")
+    let s2 := cmd .sync fanErrM u0 s1 (.user "E")
+    let s3 := cmd .sync fanErrM u0 s2 (.user "E")
+    let s4 := cmd .sync fanErrM u0 s3 (.user "E")
+    (s1.queue.length, s2.queue.length, s3.queue.length, s4.queue.length) = (2, 6, 2, 6) ∧
+    (s1.err.isSome, s2.err.isSome, s3.err.isSome, s4.err.isSome) = (true, true, true, true) ∧
+    (cntSelf s1.queue, cntSelf s2.queue, cntSelf s3.queue, cntSelf s4.queue) = (2, 6, 2, 6) ∧
+    (let q2 : St := { s1 with err := none, queue := s1.queue ++ [⟨.user "E", false⟩] }
+     let q3 : St := { s2 with err := none, queue := s2.queue ++ [⟨.user "E", false⟩] }
+     (drainSteps fanErrM u0 (drainFuel fanErrM q2) 0 q2, drainTrips fanErrM u0 (drainFuel fanErrM q2) 0 q2,
+      drainSteps fanErrM u0 (drainFuel fanErrM q3) 0 q3, drainTrips fanErrM u0 (drainFuel fanErrM q3) 0 q3) =
+       (3, 0, 4, 1)) := by decide
 
 /-- **Counterexample to the per-causal-chain reading (F70, sync; open).** The same witness on the sync engine: one
     `E` alone enqueues one event while draining, is not cut, its `R` is received. Four `E` queued by one
-    `send_events`: the budget is 3 + 4 = 7 and EVERY dequeue counts, so after `E E E E R R R` it is exhausted and
-    the cut clears the queue — the fourth `R`, the whole (length 1) chain of the fourth `E`, is discarded (in general
-    `N - maxIterations` of `N`). The hypothesis of `short_chain_not_cut_sync` does not hold (4 events enqueued
-    while draining): it bounds the total of a drain, not a chain. -/
+    `send_events`: every raised `R` is marked and every marked dequeue of the drain counts, so after
+    `E E E E R R R` the counter stands at 3 and the fourth `R` trips the bound: the cut discards it — the whole
+    (length 1) chain of the fourth `E` (in general `N - maxIterations` of `N`). The hypothesis of
+    `short_chain_not_cut_sync` does not hold (4 events enqueued while draining): it bounds the total of a drain,
+    not a chain. -/
 theorem burst_of_short_chains_is_cut_sync :
     let e : QEv := ⟨.user "E", false⟩
     let one : St := { running with queue := [e] }
     let s0 : St := { running with queue := [e, e, e, e] }
-    (shortM.maxIterations, (drainRaised shortM u0 (drainBudget shortM one) one).length,
-      drainCut shortM u0 (drainBudget shortM one) one, count "sawR@R" (drainFlagged shortM u0 one)) = (3, 1, false, 1) ∧
-    (drainLog shortM u0 (drainBudget shortM s0) s0).map (·.type) = ["E", "E", "E", "E", "R", "R", "R"] ∧
+    (shortM.maxIterations, (drainRaised shortM u0 (drainFuel shortM one) 0 one).length,
+      drainCut shortM u0 (drainFuel shortM one) 0 one, count "sawR@R" (drainFlagged shortM u0 one)) = (3, 1, false, 1) ∧
+    (drainLog shortM u0 (drainFuel shortM s0) 0 s0).map (·.type) = ["E", "E", "E", "E", "R", "R", "R"] ∧
     count "sawR@R" (drainFlagged shortM u0 s0) = 3 ∧
-    drainCut shortM u0 (drainBudget shortM s0) s0 = true ∧
+    drainCut shortM u0 (drainFuel shortM s0) 0 s0 = true ∧
     ((drainFlagged shortM u0 s0).status, evTypes (drainFlagged shortM u0 s0)) = ("running", []) ∧
-    (drainRaised shortM u0 (drainBudget shortM s0) s0).length = 4 := by decide
+    (drainRaised shortM u0 (drainFuel shortM s0) 0 s0).length = 4 := by decide
 
 /-- **The former Deviation 3 (F10), repaired outcome.** Five plain external events queued by one call
     (`send_events`) with bound 3 — no chain at all: all five are processed (before the repair: 3, the last
-    two were discarded); the budget of the drain is 3 + 5, nothing is cut. -/
+    two were discarded); external events do not count, nothing is cut. -/
 theorem sync_burst_not_throttled :
     let x : QEv := ⟨.user "X", false⟩
     count "sawX@X" (drainFlagged fanM u0 { running with queue := [x, x, x, x, x] }) = 5 ∧
-    drainBudget fanM { running with queue := [x, x, x, x, x] } = 8 ∧
-    drainCut fanM u0 (drainBudget fanM { running with queue := [x, x, x, x, x] })
+    drainTrips fanM u0 (drainFuel fanM { running with queue := [x, x, x, x, x] }) 0
+      { running with queue := [x, x, x, x, x] } = 0 ∧
+    drainCut fanM u0 (drainFuel fanM { running with queue := [x, x, x, x, x] }) 0
       { running with queue := [x, x, x, x, x] } = false := by
   decide
-/-- … and a burst mixed with a runaway chain: `X E X`, `fanM` (`E` raises `E` twice, bound 3): budget 3 + 3;
-    `X E X` are received first, then three of the raised `E`s, then the cut — which discards raised `E`s only -/
+/-- … and a burst mixed with a runaway chain: `X E X`, `fanM` (`E` raises `E` twice, bound 3): `X E X` are
+    received first, then three of the raised (marked) `E`s, then the cut — which discards raised `E`s only -/
 example : let x : QEv := ⟨.user "X", false⟩
     let e : QEv := ⟨.user "E", false⟩
-    (drainLog fanM u0 (drainBudget fanM { running with queue := [x, e, x] }) { running with queue := [x, e, x] },
-     drainCut fanM u0 (drainBudget fanM { running with queue := [x, e, x] }) { running with queue := [x, e, x] },
+    (drainLog fanM u0 (drainFuel fanM { running with queue := [x, e, x] }) 0 { running with queue := [x, e, x] },
+     drainCut fanM u0 (drainFuel fanM { running with queue := [x, e, x] }) 0 { running with queue := [x, e, x] },
      count "sawX@X" (drainFlagged fanM u0 { running with queue := [x, e, x] })) =
     ([.user "X", .user "E", .user "X", .user "E", .user "E", .user "E"], true, 2) := by decide
+/-- … and with MARKED leftovers in front of the external events (what a drain that raised leaves): five marked
+    `E` then `X X`, bound 3 — three `E` are processed, the fourth trips the bound: every marked entry is purged
+    (the fifth leftover and the six `E` raised meanwhile), both `X` are received -/
+example : let x : QEv := ⟨.user "X", false⟩
+    let l : QEv := ⟨.user "E", true⟩
+    (drainLog fanM u0 (drainFuel fanM { running with queue := [l, l, l, l, l, x, x] }) 0
+        { running with queue := [l, l, l, l, l, x, x] },
+     drainTrips fanM u0 (drainFuel fanM { running with queue := [l, l, l, l, l, x, x] }) 0
+        { running with queue := [l, l, l, l, l, x, x] },
+     evTypes (drainFlagged fanM u0 { running with queue := [l, l, l, l, l, x, x] })) =
+    ([.user "E", .user "E", .user "E", .user "X", .user "X"], 1, []) := by decide
 /-- `shortM` (`E` raises `R` once, bound 3): one event enqueued while draining, not cut; `fanM`: the hypothesis
     of `short_chain_not_cut_sync` fails (8 > 3 events enqueued while draining) and the drain is cut -/
-example : ((drainRaised shortM u0 4 { running with queue := [⟨.user "E", false⟩] }).length,
-    drainCut shortM u0 4 { running with queue := [⟨.user "E", false⟩] }) = (1, false) := by decide
-example : ((drainRaised fanM u0 4 { running with queue := [⟨.user "E", false⟩] }).length,
-    drainCut fanM u0 4 { running with queue := [⟨.user "E", false⟩] }) = (8, true) := by decide
+example : ((drainRaised shortM u0 (drainFuel shortM { running with queue := [⟨.user "E", false⟩] }) 0
+      { running with queue := [⟨.user "E", false⟩] }).length,
+    drainCut shortM u0 (drainFuel shortM { running with queue := [⟨.user "E", false⟩] }) 0
+      { running with queue := [⟨.user "E", false⟩] }) = (1, false) := by decide
+example : ((drainRaised fanM u0 (drainFuel fanM { running with queue := [⟨.user "E", false⟩] }) 0
+      { running with queue := [⟨.user "E", false⟩] }).length,
+    drainCut fanM u0 (drainFuel fanM { running with queue := [⟨.user "E", false⟩] }) 0
+      { running with queue := [⟨.user "E", false⟩] }) = (8, true) := by decide
 
 /-! ## 5. … "leaving a legal configuration" -/
 
